@@ -22,6 +22,7 @@ func init() {
 			"R3 every connection constructor call site is followed on its success path by exactly one `go <connection loop>` and the loop is never called synchronously, " +
 			"R4 no mutex that the library write-locks anywhere may be held — exclusively or shared — at a handler invocation or at a call leading to one (a shared hold across a handler is enough for Go's writer-preferring RWMutex to stall every other connection once a registration waits), " +
 			"R5 no function of the dispatch closure performs a blocking channel send/receive/select or wait (only non-blocking selects), so no shared queue or semaphore can couple connections. " +
+			"R6 no mutex that is not private to one connection (its owner type is allocated outside the connection constructor) is held by a library function across a write to a transport — directly or through lock/unlock wrapper functions — while the connection loop or a function of the dispatch chain acquires it: a peer that stops reading would stall the dispatch on every other connection. " +
 			"These are necessary conditions of C08; the check does not decide actual schedules or handler durations. Roots of the chain are every Handler implementation and every handler-typed value the library invokes.",
 		Rules: map[string]string{
 			"R1": "in the connection loop the read message flows by a plain call to the dispatch chain; no cycle through the read avoids the dispatch call except via the read-error exit",
@@ -29,8 +30,9 @@ func init() {
 			"R3": "each connection constructor site: exactly one `go loop()` on the success path; loop never called synchronously",
 			"R4": "no mutex that the library also write-locks may be held — exclusively or shared — at a handler invocation (or at a call leading to one) on the dispatch chain",
 			"R5": "no blocking channel operation / wait in any function of the dispatch closure",
+			"R6": "no mutex shared between connections is both held across a transport write and acquired by the connection loop or the dispatch chain",
 		},
-		MinInstances: map[string]int{"R1": 1, "R2": 1, "R3": 1, "R4": 1, "R5": 1},
+		MinInstances: map[string]int{"R1": 1, "R2": 1, "R3": 1, "R4": 1, "R5": 1, "R6": 1},
 		Assumptions:  []string{"application handlers are reached only through Handler.ServeDIAM invokes and calls of func(Conn,*Message) values"},
 	})
 }
@@ -418,6 +420,15 @@ func runC08(c *Ctx) {
 	}
 	if nBlock == 0 {
 		r.Ok("R5", "DispatchClosure:no-blocking-ops", "-", fmt.Sprintf("%d dispatch-chain functions contain no blocking channel operation or wait", len(closure)))
+	}
+
+	// ---- R6: no mutex shared between connections is both held across a transport write and taken on the
+	// way to the handlers ----
+	{
+		recv := entryFn.Signature.Recv()
+		c.sharedLockAcrossWrite("R6", []*ssa.Function{entryFn, loopFn}, closure, func(f *ssa.Function) bool {
+			return recv != nil && returnsType(f, recv.Type())
+		})
 	}
 
 	// ---- R4 ----
